@@ -183,11 +183,22 @@ func worker(prop, tier string, shard, nshard int, budget time.Duration) {
 		if v, err := strconv.Atoi(os.Getenv("VERIF_HANG_S")); err == nil && v > 0 {
 			limit = int64(v)
 		}
-		for {
-			time.Sleep(2 * time.Second)
-			t0 := vs.ExecRunningSince()
-			if t0 == 0 || time.Now().UnixNano()-t0 < limit*int64(time.Second) {
-				continue
+		memLimit := int64(4 << 10) // MiB per worker process (a worker normally stays below 1 GiB)
+		if v, err := strconv.Atoi(os.Getenv("VERIF_MEM_MIB")); err == nil && v > 0 {
+			memLimit = int64(v)
+		}
+		why := ""
+		for tick := 0; ; tick++ {
+			time.Sleep(200 * time.Millisecond)
+			if rss := rssMiB(); rss > memLimit {
+				// code under test allocating without bound: report before the operating system kills the process
+				why = fmt.Sprintf("one execution made the process hold %d MiB (limit %d MiB)", rss, memLimit)
+			} else {
+				t0 := vs.ExecRunningSince()
+				if tick%10 != 0 || t0 == 0 || time.Now().UnixNano()-t0 < limit*int64(time.Second) {
+					continue
+				}
+				why = fmt.Sprintf("one execution has been running for more than %d s of wall time without ending", limit)
 			}
 			mu.Lock()
 			sc := scs[cur]
@@ -204,7 +215,7 @@ func worker(prop, tier string, shard, nshard int, budget time.Duration) {
 				}
 			}
 			enc.Encode(shardResult{Scenario: sc.ID(), Family: sc.Family(), Desc: sc.Describe(), Executions: 1, Reproduced: 5,
-				Violation: fmt.Sprintf("L-hang: one execution has been running for more than %d s of wall time without ending; innermost frame of the code under test: %s || scenario: %s", limit, site, sc.Describe()), Rule: "L-hang"})
+				Violation: fmt.Sprintf("L-hang: %s; innermost frame of the code under test: %s || scenario: %s", why, site, sc.Describe()), Rule: "L-hang"})
 			for j := cur + 1; j < len(scs); j++ {
 				if j%nshard == shard {
 					enc.Encode(shardResult{Scenario: scs[j].ID(), Family: scs[j].Family(), Capped: true, BoundDone: -1})
@@ -266,6 +277,20 @@ func loadKnown() []knownEntry {
 		}
 	}
 	return out
+}
+
+// rssMiB is the resident set size of this process (0 when /proc is not readable).
+func rssMiB() int64 {
+	b, err := os.ReadFile("/proc/self/statm")
+	if err != nil {
+		return 0
+	}
+	f := strings.Fields(string(b))
+	if len(f) < 2 {
+		return 0
+	}
+	pages, _ := strconv.ParseInt(f[1], 10, 64)
+	return pages * int64(os.Getpagesize()) >> 20
 }
 
 func main() {
